@@ -16,6 +16,9 @@ type PkgObj struct {
 	Cond    string `json:"cond,omitempty"`    // CEL condition annotation: "", "true", "false" or "cond.<name>"
 	CP      string `json:"cp,omitempty"`      // collision protection annotation
 	CondMap bool   `json:"condMap,omitempty"` // condition-map annotation
+	// PhaseForm: how the phase annotation value is written: "" exact | "lead" (" ph0") | "trail" ("ph0 ") | "block"
+	// (YAML block scalar, i.e. "ph0\n"). Anything but the exact name does not name a phase of the manifest.
+	PhaseForm string `json:"phaseForm,omitempty"`
 	Keep    bool   `json:"keep,omitempty"`    // an unrelated annotation that must survive
 	// Tmpl selects templated content (only honoured in template files): "", "config", "helper", "quote", "b64", "default", "toJson"
 	Tmpl    string `json:"tmpl,omitempty"`
@@ -168,7 +171,16 @@ func (o PkgObj) yaml(templated bool, c PkgCtx) string {
 	}
 	sb.WriteString("metadata:\n  name: " + o.Name + "\n  labels:\n    app: pkg\n  annotations:\n")
 	if o.Phase != "" {
-		sb.WriteString("    package-operator.run/phase: " + o.Phase + "\n")
+		switch o.PhaseForm {
+		case "lead":
+			sb.WriteString("    package-operator.run/phase: \" " + o.Phase + "\"\n")
+		case "trail":
+			sb.WriteString("    package-operator.run/phase: \"" + o.Phase + " \"\n")
+		case "block":
+			sb.WriteString("    package-operator.run/phase: |\n      " + o.Phase + "\n")
+		default:
+			sb.WriteString("    package-operator.run/phase: " + o.Phase + "\n")
+		}
 	}
 	if o.Cond != "" {
 		sb.WriteString("    package-operator.run/condition: \"" + o.Cond + "\"\n")
@@ -356,6 +368,19 @@ func globMatch(glob, path string) bool {
 		return strings.HasPrefix(path, pre) && !strings.Contains(strings.TrimPrefix(path, pre), "/")
 	}
 	return glob == path
+}
+
+// ExpectInvalid: the package contains an object whose phase annotation does not name a phase of the manifest exactly;
+// object validation must reject the package (it must not be accepted and then silently lose the object).
+func (d PkgDesc) ExpectInvalid() bool {
+	for _, f := range d.Files {
+		for _, o := range f.Objs {
+			if o.PhaseForm != "" {
+				return true
+			}
+		}
+	}
+	return false
 }
 
 // Expected is R-render: the ObjectSetTemplateSpec phases the package must render to, as JSON shape.
